@@ -59,16 +59,18 @@ func (s *Server) DiscoveryRequest(req *pool.Message, address string, receiverFun
 	if err != nil {
 		return fmt.Errorf("cannot marshal req: %w", err)
 	}
-	s.multicastRequests.Store(token.Hash(), req)
-	defer s.multicastRequests.Delete(token.Hash())
-	if _, loaded := s.multicastHandler.LoadOrStore(token.Hash(), func(w *responsewriter.ResponseWriter[*client.Conn], r *pool.Message) {
+	if _, loaded := s.multicastHandler.LoadOrStore(string(token), func(w *responsewriter.ResponseWriter[*client.Conn], r *pool.Message) {
 		receiverFunc(w.Conn(), r)
 	}); loaded {
 		return pkgErrors.ErrKeyAlreadyExists
 	}
 	defer func() {
-		_, _ = s.multicastHandler.LoadAndDelete(token.Hash())
+		_, _ = s.multicastHandler.LoadAndDelete(string(token))
 	}()
+	// only now: a discovery that is refused because its token is in use must not touch (and, on return, remove)
+	// the request record of the running discovery that owns the token
+	s.multicastRequests.Store(token.Hash(), req)
+	defer s.multicastRequests.Delete(token.Hash())
 
 	if addr.IP.IsMulticast() {
 		err = c.WriteMulticast(req.Context(), addr, data, opts...)
